@@ -8,9 +8,9 @@
      ODef h o                  the Deferred returned by the h-th Deferred-returning makeRequest call fires with o
      t_dlog                    correlation id passed to makeRequest, per handle (dlog_is_make_log)
      CInv                      the invariant every reachable state satisfies (C06_reachable) *)
-From AV Require Import Base.Util Model.Framing Model.BrokerClient
+From AV Require Import Base.Util Model.Framing Model.BrokerClient Model.BrokerClientHook
   Proofs.FramingFacts Proofs.FramingExtra Proofs.FramingBootstrap Proofs.BrokerClientTbl Proofs.BrokerClientInv
-  Proofs.BrokerClientC06 Proofs.BrokerClientChunk.
+  Proofs.BrokerClientC06 Proofs.BrokerClientChunk Proofs.BrokerClientHook.
 
 (* ------------------------------------------------------------------ framing *)
 
@@ -100,6 +100,26 @@ Theorem C06_nothing_after_fired : forall evs s outs a h oc b, run init evs = (s,
   forall o, In o b -> (forall oc', o <> ODef h oc') /\ (forall rid, o <> OWrite h rid).
 Proof. exact after_fired. Qed.
 Print Assumptions C06_nothing_after_fired.
+
+(* The same two statements when user code calls back into the client (cancel / makeRequest / disconnect / close, any
+   number, in any order) from the only two places where a Deferred of the class fires in the middle of a method: the
+   callback of a no-reply request inside _sendQueued and the errbacks inside close()'s loop
+   (Model/BrokerClientHook.v: IConnOk inter / IClose inter quantify over those calls; _sendQueued as repaired by commit
+   7c12cf4, finding F-C10-1).  Elsewhere Deferreds fire in tail position: a call from the callback is the next event. *)
+Theorem C06_exactly_once_reentrant : forall evs s outs, irun true init evs = (s, outs) ->
+  NoDup (def_handles outs)
+  /\ (forall o, In o outs -> ~ ((exists k h, o = OErr k h) \/ o = ORaised 5))
+  /\ (forall h, In h (def_handles outs) <->
+                (h < length (t_dlog (s_t s)))%nat
+                /\ ~ (exists r, In r (t_reqs (s_t s)) /\ r_h r = h /\ r_cancelled r = false)).
+Proof. exact exactly_once_i. Qed.
+Print Assumptions C06_exactly_once_reentrant.
+
+Theorem C06_nothing_after_fired_reentrant : forall evs s outs a h oc b,
+  irun true init evs = (s, outs) -> outs = a ++ ODef h oc :: b ->
+  forall o, In o b -> (forall oc', o <> ODef h oc') /\ (forall rid, o <> OWrite h rid).
+Proof. exact after_fired_i. Qed.
+Print Assumptions C06_nothing_after_fired_reentrant.
 
 (* Own response: a success value is a frame whose first four bytes decode to the correlation id that was passed to
    the makeRequest call which created that Deferred. *)
